@@ -3,12 +3,14 @@ package loadbalancer
 import (
 	"context"
 	"errors"
+	"github.com/0xReLogic/Helios/internal/verifrt"
 	"io"
 	"log"
 	"net/http"
 	"net/http/httptrace"
 	"net/http/httputil"
 	"net/textproto"
+	"time"
 )
 
 var verifQuietLog = log.New(io.Discard, "", 0)
@@ -49,10 +51,21 @@ func (b *verifChunkedBody) Close() error { return nil }
 
 func (t *verifFakeRT) RoundTrip(req *http.Request) (*http.Response, error) {
 	verifHit(t.name)
+	if req.Header.Get("X-Verif-Hold") != "" {
+		verifrt.WaitFor(&verifHold) // the backend takes its time: the request stays in flight until the harness releases it
+	}
 	if req.Header.Get("Upgrade") != "" {
 		// a tunnel lives until one side closes it: note whether a timer is attached to the request that reaches the proxy
 		_, has := req.Context().Deadline()
 		verifSetUpgradeDeadline(has)
+	}
+	if verifSlowBackend {
+		// a backend slower than server.timeouts.handler (1 s in the harness); like a real transport, give up when the request is cancelled
+		select {
+		case <-time.After(1300 * time.Millisecond):
+		case <-req.Context().Done():
+			return nil, req.Context().Err()
+		}
 	}
 	kind, status := verifNextOutcome(req)
 	if kind != verifOutRefused {
